@@ -165,9 +165,14 @@ Json::Value genProto() {
     // request bytes: every first byte, with/without terminator, embedded NUL,
     // up to beyond the 32-byte read window
     std::string req;
-    int form = W({40, 25, 20, 15});
-    if (form == 0) {
-      req = std::string(1, oneOf(std::vector<char>{'g', 'r', '0', 'x', 'G', '\0', '\n', ' ', '{', (char)0xff}));
+    int form = W({36, 22, 18, 14, 10});
+    if (form == 4) {
+      // only the first byte is the mode: a valid mode letter further in changes nothing
+      req = std::string(R(1, 3), oneOf(std::vector<char>{'a', 'x', ' ', 'G', 'R', '1', (char)0x80}));
+      req += oneOf(std::vector<char>{'g', 'r', '0'});
+      if (P(80)) req += "\n";
+    } else if (form == 0) {
+      req = std::string(1, oneOf(std::vector<char>{'g', 'r', '0', 'x', 'a', 'G', '\0', '\n', ' ', '{', (char)0xff}));
       if (P(70)) req += "\n";
     } else if (form == 1) {
       int n = R(0, 40);
